@@ -341,8 +341,10 @@ def _enum_k1(tier):
         m = 4 if (on == "newthread" and len(subs) > 1) else 1  # spread the big explorations over several cases
         for i in range(m):
             yield _case(target, on, seq, subs, conc.sched_all(1, [i, m] if m > 1 else None), False, dispose)
-    if tier == "thorough":
+    if tier == "thorough":  # two preemptions at full line granularity: single-subscriber 2-element programs on the event loop
         for target, on, seq, subs, dispose in _programs(small=True):
+            if on == "newthread" or len(seq) > 2 or len(subs) > 1:
+                continue
             m = 16
             for i in range(m):
                 yield _case(target, on, seq, subs, conc.sched_all(2, [i, m]), False, dispose)
@@ -353,10 +355,10 @@ def _enum_k2(tier):
     for target, on, seq, subs, dispose in _QUICK_K2 if tier == "quick" else _programs(small=True):
         for i in range(m):
             yield _case(target, on, seq, subs, conc.sched_all(2, [i, m]), True, dispose)
-    if tier == "thorough":
-        for target, on, seq, subs, dispose in _programs(small=True):
-            if on == "newthread" or len(seq) > 2 and len(subs) > 1:
-                continue
+    if tier == "thorough":  # three preemptions (focus trace) on the 2-element programs
+        k3 = [p for p in _programs(small=True) if p[1] != "newthread" and len(p[2]) <= 2 and len(p[3]) == 1]
+        k3 += [("replay", "loop", "NN", [_thr()], None), ("observe_on", "newthread", "NN", [_pre()], None)]
+        for target, on, seq, subs, dispose in k3:
             for i in range(32):
                 yield _case(target, on, seq, subs, conc.sched_all(3, [i, 32]), True, dispose)
 
@@ -389,7 +391,7 @@ _gen = st.tuples(st.sampled_from(["observe_on", "replay", "replay"]), _seq).flat
 
 def checks(tier):
     return [
-        Check("enum-k1", run, cases=_enum_k1, shards={"quick": 8, "thorough": 16}, exhaustive=True),
-        Check("enum-k2", run, cases=_enum_k2, shards={"quick": 8, "thorough": 16}, exhaustive=True),
-        Check("gen", run, strategy=_gen, examples={"quick": 800, "thorough": 16 * 6000}, shards={"quick": 8, "thorough": 16}),
+        Check("enum-k1", run, cases=lambda tier: conc.scaled(_enum_k1(tier), tier), shards={"quick": 8, "thorough": 16}, exhaustive=True),
+        Check("enum-k2", run, cases=lambda tier: conc.scaled(_enum_k2(tier), tier), shards={"quick": 8, "thorough": 16}, exhaustive=True),
+        Check("gen", run, strategy=_gen, examples={"quick": 800, "thorough": 16 * 4000}, shards={"quick": 8, "thorough": 16}),
     ]
